@@ -45,6 +45,18 @@ CHECKS = {
   text="The Lean model has exactly two configuration parameters (map order of toml::Table: sorted | insertion; recursion limit: LIMIT | none); theorems in Props/C18.lean state what may depend on them (sorting is independent of insertion order on distinct keys; the sorted plain form is invariant under permutation of table entries) and the parser model takes no other configuration. The tie is the correspondence repeated per configuration: a dedicated crate (harness18) whose Cargo features map to the crates' features is BUILT under each cell of {perf} x {preserve_order} x {parse+display, parse-only, display-only} plus unbounded and serde (quick: 4 cells; thorough: 15 cells + the Cargo-only cells), which also shows that every configuration builds; a fixed seed-independent battery (500 generated documents, the toml-test files, depth documents, 300 API-built documents) is run in each cell and compared with the model instance for that cell (verdict, decoded tree, toml::Table data, iteration order sorted vs insertion) and, for printed text, with the default cell.",
   note="The configuration quantifier is finite and enumerated; the input quantifier is carried by the configuration-independent model plus the per-configuration correspondence on the battery. Whether each cell compiles is established by building it.",
   technique="Lean 4 proof (order invariance) + per-configuration differential correspondence over the enumerated feature matrix", design="7/C18"),
+ "C03": dict(
+  text="Lean 4 model of the format-preserving side of the parser (Model/Cst.lean: every span and decor slot the real parser records — key leaf/dotted decor, value decor, array element decor / trailing comma / trailing trivia, inline-table preamble, header decor, document trailing, table spans, positions) threaded through the same state machine as the semantic model, and of into_mut + Display for DocumentMut (Model/Encode.lean: visit_nested_tables, stable sort by position, visit_table, get_values flattening, encode_key_path, RawString::encode dropping CRs of decor only). Theorems (Props/C03.lean): CR-stripping laws, value-level tiling (printing a parsed value with its decor reproduces the consumed text) for scalars and arrays at any nesting; the full-strength value statement is refuted on the F15 witness. Correspondence: printed text of the model = DocumentMut::to_string() on generated documents in every layout, the valid corpus and hand-written layouts (plus `cstsem`: the decorated parser erases to the semantic parser's tree). Direct oracle on the implementation: print == normalize(input) (BOM dropped, CRLF->LF outside multi-line string bodies, final newline added) whenever dotted keys are adjacent and no table name is re-spelled; always: printed text valid, same data, fixed point of parse-then-print, every comment kept.",
+  note="Known finding F15 (table-naming keys print with their first spelling) is listed by class; the generator classifies such documents. Inline-table and document-level tiling theorems are staged (kept as Prop definitions).",
+  technique="Lean 4 model + tiling proofs (partial) + differential correspondence + normalisation oracle", design="7/C03"),
+ "C14": dict(
+  text="Same span-recording model as C03; theorems (Props/C14.lean): span bounds for parsed values (scalars/arrays), consumed-text characterisation; Props/C15 supplies character-boundary facts. Correspondence: every key / value / table / array-of-tables span of the model equals the implementation's on generated multi-byte documents, the corpus and hand-written layouts. Direct oracles on the implementation: bounds, character boundaries, child inside parent, the spanned slice re-parses to the same key / value, Spanned<T> through serde (a recursive Spanned tree) gives the same value and the same ranges, no span survives into_mut().",
+  note="Document-level bounds theorem staged (Prop definition kept). Table spans of out-of-order sub-tables are compared as the code defines them (header..last value).",
+  technique="Lean 4 model + bounds proofs (partial) + differential correspondence + re-parse oracle", design="7/C14"),
+ "C20": dict(
+  text="Lean 4 model of the default Visit / VisitMut walks (Model/Visit.lean, function by function) and an independent pre-order specification (Spec/Preorder.lean). Theorems (Props/C20.lean), all by structural induction over every tree: the hook trace is exactly `doc :: preorder.flatMap hooks` (each node once, in tree order), the mutable walk produces the same trace and leaves the tree unchanged under the identity rewrite, rewriting integers changes exactly the integers (skeleton preserved, count preserved) and that determines the result uniquely; lifted to every document the parser model accepts. Correspondence: tracing visitors overriding all 14 hooks (read-only and mutable) and an integer-rewriting VisitMut on generated documents, the corpus and mutations; direct oracles: ro trace = mut trace, trace vs the generator's intended tree, after = before with every integer incremented, trace = pre-order of the printed tree.",
+  note="Order is the tree's iteration order; for an implicit table later defined by its own header this differs from text order (convention K2). DocumentFormatter / Pretty are users of VisitMut and belong to C07.",
+  technique="Lean 4 proof (structural induction, trace = preorder) + differential correspondence", design="7/C20"),
 }
 
 NA = {}
